@@ -651,3 +651,48 @@ Theorem clone_faithful_reachable_lemma w0 ops i a idx :
   (In kExt (map fst (a_blocks a)) -> map (rd (fst r)) (blk (snd r) kExt) = map (rd s) (blk a kExt)) /\
   same_meta a (snd r).
 Proof. intros H Hi. apply clone_faithful_lemma. eapply reachable_bounded; eauto. Qed.
+
+(* ---------------------------------------------------------------------------------------------- *)
+(* Deepening round 3: generations of copies.  A copy of a copy (a training function called again on what it returned:
+   elite = best.clone(); member = elite.clone()) is a faithful copy of the original, and so is any chain of copies *)
+
+Lemma clone_bounded idx s a : bounded (fst (clone_agent idx s a)) (agent_locs (snd (clone_agent idx s a))).
+Proof.
+  destruct (clone_spec idx s a) as (_ & C2 & _). apply Forall_forall. intros l Hl. specialize (C2 l Hl). lia.
+Qed.
+
+Lemma clone_reg_nohooks idx s a : r_hooks (a_reg a) = [] -> bounded s (agent_locs a) ->
+  a_reg (snd (clone_agent idx s a)) = a_reg a.
+Proof.
+  intros HH B. pose proof (clone_faithful_nohooks_lemma idx s a HH B) as E.
+  apply (f_equal v_reg) in E. exact E.
+Qed.
+
+(* [clone_chain idxs s a]: clone a, clone the clone, ... once per element of idxs *)
+Fixpoint clone_chain (idxs : list (option N)) (s : store) (a : agent) : store * agent :=
+  match idxs with
+  | [] => (s, a)
+  | i :: r => let x := clone_agent i s a in clone_chain r (fst x) (snd x)
+  end.
+
+Theorem clone_chain_faithful_lemma : forall idxs s a,
+  r_hooks (a_reg a) = [] -> bounded s (agent_locs a) ->
+  abs (fst (clone_chain idxs s a)) (snd (clone_chain idxs s a)) = abs s a.
+Proof.
+  induction idxs as [|i r IH]; intros s a HH B; cbn [clone_chain fst snd]; auto.
+  rewrite IH.
+  - apply clone_faithful_nohooks_lemma; auto.
+  - rewrite clone_reg_nohooks; auto.
+  - apply clone_bounded.
+Qed.
+
+(* every copy in the chain is made of new cells *)
+Theorem clone_chain_fresh_lemma : forall idxs s a l,
+  idxs <> [] -> In l (agent_locs (snd (clone_chain idxs s a))) -> s_next s <= l.
+Proof.
+  induction idxs as [|i r IH]; intros s a l Hne Hl; [congruence|]. cbn [clone_chain] in Hl.
+  destruct (clone_spec i s a) as (C1 & C2 & _).
+  destruct r as [|j r'].
+  - cbn [clone_chain snd] in Hl. specialize (C2 l Hl). lia.
+  - assert (Hn : s_next (fst (clone_agent i s a)) <= l) by (apply (IH (fst (clone_agent i s a)) (snd (clone_agent i s a)) l); [discriminate|exact Hl]). lia.
+Qed.
